@@ -18,10 +18,11 @@ pub mod c13;
 pub mod c14;
 pub mod c15;
 pub mod c16;
+pub mod c17;
 
 use crate::engine::{json, Case, Run};
 
-pub const ALL: [&str; 16] = ["C01", "C02", "C03", "C04", "C05", "C06", "C07", "C08", "C09", "C10", "C11", "C12", "C13", "C14", "C15", "C16"];
+pub const ALL: [&str; 17] = ["C01", "C02", "C03", "C04", "C05", "C06", "C07", "C08", "C09", "C10", "C11", "C12", "C13", "C14", "C15", "C16", "C17"];
 
 pub fn known(id: &str) -> bool {
     ALL.contains(&id)
@@ -45,6 +46,7 @@ pub fn run(run: &Run) {
         "C14" => c14::run(run),
         "C15" => c15::run(run),
         "C16" => c16::run(run),
+        "C17" => c17::run(run),
         _ => unreachable!(),
     }
 }
@@ -68,6 +70,7 @@ pub fn replay_case(prop: &str, case: &Case) -> Result<Result<(), (String, String
         "C14" => c14::replay(case),
         "C15" => c15::replay(case),
         "C16" => c16::replay(case),
+        "C17" => c17::replay(case),
         _ => Err(format!("unknown property {}", prop)),
     }
 }
@@ -149,6 +152,7 @@ pub fn sub(name: &str, args: &[String], seed: u64) -> i32 {
             match args[0].as_str() {
                 "C08" => c08::iterator_part(&r),
                 "C11" => c11::explore_all(&r),
+                "C17" => c17::explore(&r),
                 _ => {
                     eprintln!("no child part for {}", args[0]);
                     return 2;
@@ -160,6 +164,7 @@ pub fn sub(name: &str, args: &[String], seed: u64) -> i32 {
                 0
             }
         }
+        "c17digest" if !args.is_empty() => c17::sub_digest(&args[0]),
         _ => {
             eprintln!("unknown sub-command {}", name);
             2
